@@ -10,6 +10,7 @@ type StackN<const N: usize, const S: usize> = any_vec::mem::StackN<N, S>;
 
 #[cfg(feature = "lib_alloc")]
 anyvec_pbt::configs! {
+    Tr32a8_StackN: Tr32a8, StackN<2, 64>, dyn Cloneable, G_BACKEND | G_STACK;
     Tr64_StackNA:  Tr64,   StackN<2, 128>,  dyn Cloneable, G_ALIGN;
     Tr8_Multi:    Tr8,    Multi, dyn Cloneable, G_LAYOUT | G_CORE | G_FAULT;
     Pl0_Multi:    Pl0,    Multi, dyn Cloneable, G_LAYOUT;
@@ -23,6 +24,7 @@ anyvec_pbt::configs! {
 
 #[cfg(not(feature = "lib_alloc"))]
 anyvec_pbt::configs! {
+    Tr32a8_StackN: Tr32a8, StackN<2, 64>, dyn Cloneable, G_BACKEND | G_STACK;
     Tr64_StackNA:  Tr64,   StackN<2, 128>,  dyn Cloneable, G_ALIGN;
     Tr8_StackN:   Tr8,    StackN<4, 40>,  dyn Cloneable, G_BACKEND | G_STACK | G_FAULT;
 }
